@@ -34,6 +34,9 @@ func runC06(c *Ctx) {
 	// … whatever the clock files hold after a crash: the merge commit is dated after both branches were read (shared with C01)
 	checkMergeCommitPack(c)
 	checkBuildWritesOnce(c, "R6.10")
+	checkMergeIndexesPerEntity(c, "R6.11")
+	// "the repository opens again after a death": a dead lock owner is recognised as dead (shared with C19)
+	checkWebUIAndIsRunning(c)
 	c.Doc("R6.1", "after a successful ref-moving call no object write, ref update or clock increment is reachable inside the write path; the hash given to UpdateRef is the result of the last commit write of the path (or the resolved remote head)")
 	c.Doc("R6.2", "in dag.merge the clock increment precedes the pack write, which precedes the ref update")
 	c.Doc("R6.3", "PersistedClock.Write replaces the clock file atomically (write elsewhere, rename into place); it must not truncate and rewrite the live file")
